@@ -14,7 +14,7 @@ class Check(RuntimeCheck):
     prop = 'C08'
     design_ref = 'DESIGN.md §4.4, §5 C08'
     theorems = ['evalCall_reasons', 'C08_call_logs', 'C08_method_call_logs', 'C08_user_panic_not_recorded',
-                'C08_mock_panic_recorded', 'C08_teardown_forwards']
+                'C08_mock_panic_recorded', 'C08_teardown_forwards', 'LogLe.refl', 'LogLe.trans', 'C08_step_log_append_only', 'C08_log_append_only']
 
     def extra(self, rep, tier, seed):
         """swallowed mock-induced panics whose message is unusual to render (long non-ASCII Debug text, empty / multi-line
